@@ -49,13 +49,16 @@ def cases(rng, tier):
         for dt in dts:
             vs = rng.randint(0, 10 ** 6)
             out.append({"kind": "rows", "lens": lens, "dtype": dt, "vseed": vs})
-            out.append({"kind": "flat", "lens": lens, "dtype": dt, "vseed": vs, "ndata": sum(lens)})
+            # the shape argument as a list of lengths / an ndarray / the (n_rows, lengths) pair that `.shape` returns / a RaggedShape
+            out.append({"kind": "flat", "lens": lens, "dtype": dt, "vseed": vs, "ndata": sum(lens), "form": rng.randint(0, 3)})
         # mismatching sizes: one short, one long
         dt = rng.choice(gens.DTYPES)
         for d in (-1, 1, rng.randint(2, 5)):
             nd = sum(lens) + d
             if nd >= 0:
-                out.append({"kind": "flat", "lens": lens, "dtype": dt, "vseed": 1, "ndata": nd})
+                # (a geometry OBJECT is the library's internal way of sharing a buffer between arrays: its size is not checked
+                #  against the buffer and the property does not speak about it; mismatches are given as lengths)
+                out.append({"kind": "flat", "lens": lens, "dtype": dt, "vseed": 1, "ndata": nd, "form": rng.randint(0, 2)})
     if tier == "thorough":
         for lens in gens.shapes_exhaustive(3, 3):
             for dt in gens.DTYPES:
@@ -74,6 +77,7 @@ def nontrivial(p):
 def distribution(payloads):
     d = gens.shape_stats([p["lens"] for p in payloads])
     d["kinds"] = gens.hist(p["kind"] for p in payloads)
+    d["shape_argument_forms"] = gens.hist(["list", "ndarray", "(n_rows, lengths)", "RaggedShape"][p.get("form", 0)] for p in payloads if p["kind"] == "flat")
     d["dtypes"] = gens.hist(p.get("dtype") for p in payloads)
     d["flat_mismatching"] = sum(1 for p in payloads if p["kind"] == "flat" and p["ndata"] != sum(p["lens"]))
     return d
@@ -169,7 +173,18 @@ def run_impl(p):
         return guarded(f)
     if p["kind"] == "flat":
         def f():
-            ra = RaggedArray(vals[:p["ndata"]].copy(), list(p["lens"]))
+            form = p.get("form", 0)
+            lens = list(p["lens"])
+            if form == 1:
+                shape = np.array(lens, dtype=np.int64)
+            elif form == 2:
+                shape = (len(lens), np.array(lens, dtype=np.int64))
+            elif form == 3:
+                from npstructures.raggedshape import RaggedShape
+                shape = RaggedShape(lens)
+            else:
+                shape = lens
+            ra = RaggedArray(vals[:p["ndata"]].copy(), shape)
             return _obs_array(ra, _other_dtype(p["dtype"]))
         return guarded(f)
     raise ValueError(p)
